@@ -1,5 +1,5 @@
 (* Lemmas for C07 (Model/CellGeom.v). *)
-From Coq Require Import ZArith List Bool Lia Permutation.
+From Coq Require Import ZArith List Bool Lia Permutation ZifyBool.
 From Mesa Require Import Common.ListX Generated.Tables Model.CellGeom.
 Import ListNotations.
 Open Scope Z_scope.
@@ -396,8 +396,8 @@ Section History.
   Hypothesis HG : cfg_ok pG = true.
   Variable sp : space.
 
-  (* the observation a FRESH space (no cache, same connection table) gives for one operation *)
-  Definition spec_obs (t : option table) (o : op) : list Z :=
+  (* the observation a FRESH space (no cache, same connection table, same agents) gives for one operation *)
+  Definition spec_obs (t : option table) (ag : placement) (o : op) : list Z :=
     match o with
     | Build _ => obs_conns (space_conns sp)
     | Nbhd _ c r ic =>
@@ -411,13 +411,28 @@ Section History.
         | Some t => if cell_exists t c then obs_result (spec_answer (conn_of t) 1 false c) else [-2]
         end
     | Cert tris => obs_cert sp tris
+    | Place a c =>
+        match t with
+        | None => [-2]
+        | Some t => if cell_exists t c then obs_set (agents_at (place ag a c) c) else [-2]
+        end
+    | NbhdAgents _ c r ic =>
+        match t with
+        | None => [-2]
+        | Some t => if cell_exists t c then obs_collection ag (spec_answer (conn_of t) r ic c) else [-2]
+        end
     end.
   Definition next_tbl (t : option table) (o : op) : option table :=
     match o, t with Build tbl, None => Some tbl | _, _ => t end.
-  Fixpoint spec_run (t : option table) (ops : list op) : list (list Z) :=
+  Definition next_agents (t : option table) (ag : placement) (o : op) : placement :=
+    match o, t with
+    | Place a c, Some t => if cell_exists t c then place ag a c else ag
+    | _, _ => ag
+    end.
+  Fixpoint spec_run (t : option table) (ag : placement) (ops : list op) : list (list Z) :=
     match ops with
     | [] => []
-    | o :: rest => spec_obs t o :: spec_run (next_tbl t o) rest
+    | o :: rest => spec_obs t ag o :: spec_run (next_tbl t o) (next_agents t ag o) rest
     end.
 
   Definition st_ok (st : state) : Prop :=
@@ -427,36 +442,73 @@ Section History.
     end.
 
   Lemma step_ok st o : st_ok st ->
-    snd (step pI pG cprop sp st o) = spec_obs (st_tbl st) o /\
+    snd (step pI pG cprop sp st o) = spec_obs (st_tbl st) (st_agents st) o /\
     st_tbl (fst (step pI pG cprop sp st o)) = next_tbl (st_tbl st) o /\
+    st_agents (fst (step pI pG cprop sp st o)) = next_agents (st_tbl st) (st_agents st) o /\
     st_ok (fst (step pI pG cprop sp st o)).
   Proof.
-    intros Hok. destruct st as [t ch]. unfold st_ok in *. cbn [st_tbl st_cache] in *.
-    destruct o as [tbl|form c r ic|c|tris]; cbn [step spec_obs next_tbl st_tbl st_cache].
-    - destruct t as [t|]; cbn [fst snd st_tbl st_cache]; repeat split; auto.
+    intros Hok. destruct st as [t ch ag]. unfold st_ok in *. cbn [st_tbl st_cache st_agents] in *.
+    destruct o as [tbl|form c r ic|c|tris|a c|form c r ic];
+      cbn [step spec_obs next_tbl next_agents st_tbl st_cache st_agents].
+    - destruct t as [t|]; cbn [fst snd st_tbl st_cache st_agents]; repeat split; auto.
       subst ch. apply Inv_nil.
-    - destruct t as [t|]; [|cbn [fst snd st_tbl st_cache]; auto].
-      destruct (cell_exists t c); [|cbn [fst snd st_tbl st_cache]; auto].
+    - destruct t as [t|]; [|cbn [fst snd st_tbl st_cache st_agents]; auto].
+      destruct (cell_exists t c); [|cbn [fst snd st_tbl st_cache st_agents]; auto].
       destruct (get_neighborhood_ok (conn_of t) pI pG cprop HI HG form c r ic ch Hok) as [H1 H2].
-      cbn [fst snd st_tbl st_cache]. rewrite H1. auto.
-    - destruct t as [t|]; [|cbn [fst snd st_tbl st_cache]; auto].
-      destruct (cell_exists t c); [|cbn [fst snd st_tbl st_cache]; auto].
+      cbn [fst snd st_tbl st_cache st_agents]. rewrite H1. auto.
+    - destruct t as [t|]; [|cbn [fst snd st_tbl st_cache st_agents]; auto].
+      destruct (cell_exists t c); [|cbn [fst snd st_tbl st_cache st_agents]; auto].
       destruct (neighborhood_prop_ok (conn_of t) pI pG cprop HI HG c ch Hok) as [H1 H2].
-      cbn [fst snd st_tbl st_cache]. rewrite H1. auto.
-    - cbn [fst snd st_tbl st_cache]. destruct t; auto.
+      cbn [fst snd st_tbl st_cache st_agents]. rewrite H1. auto.
+    - cbn [fst snd st_tbl st_cache st_agents]. destruct t; auto.
+    - destruct t as [t|]; [|cbn [fst snd st_tbl st_cache st_agents]; auto].
+      destruct (cell_exists t c); cbn [fst snd st_tbl st_cache st_agents]; auto.
+    - destruct t as [t|]; [|cbn [fst snd st_tbl st_cache st_agents]; auto].
+      destruct (cell_exists t c); [|cbn [fst snd st_tbl st_cache st_agents]; auto].
+      destruct (get_neighborhood_ok (conn_of t) pI pG cprop HI HG form c r ic ch Hok) as [H1 H2].
+      cbn [fst snd st_tbl st_cache st_agents]. rewrite H1. auto.
   Qed.
 
   Lemma run_ops_ok ops : forall st, st_ok st ->
-    run_ops pI pG cprop sp st ops = spec_run (st_tbl st) ops.
+    run_ops pI pG cprop sp st ops = spec_run (st_tbl st) (st_agents st) ops.
   Proof.
     induction ops as [|o rest IH]; intros st Hok; [reflexivity|].
-    cbn [run_ops spec_run]. destruct (step_ok st o Hok) as [H1 [H2 H3]].
-    rewrite H1, (IH _ H3), H2. reflexivity.
+    cbn [run_ops spec_run]. destruct (step_ok st o Hok) as [H1 [H2 [H3 H4]]].
+    rewrite H1, (IH _ H4), H2, H3. reflexivity.
   Qed.
 
-  Lemma run_ops_init ops : run_ops pI pG cprop sp init_state ops = spec_run None ops.
+  Lemma run_ops_init ops : run_ops pI pG cprop sp init_state ops = spec_run None [] ops.
   Proof. apply (run_ops_ok ops init_state). reflexivity. Qed.
 End History.
+
+(* CellCollection.agents of a neighbourhood: exactly the agents that are in its cells now *)
+Lemma agents_at_In ag c a : In a (agents_at ag c) <-> In (a, c) ag.
+Proof.
+  unfold agents_at. rewrite in_map_iff. split.
+  - intros [[a' c'] [E H]]. apply filter_In in H. destruct H as [H1 H2]. simpl in *. apply Z.eqb_eq in H2. subst. exact H1.
+  - intros H. exists (a, c). split; [reflexivity|]. apply filter_In. split; [exact H|]. simpl. apply Z.eqb_refl.
+Qed.
+
+Lemma agents_in_spec ag cells a : In a (agents_in ag cells) <-> exists c, In c cells /\ In (a, c) ag.
+Proof.
+  unfold agents_in. rewrite in_flat_map. split; intros [c [H1 H2]]; exists c; split; auto; apply agents_at_In; exact H2.
+Qed.
+
+(* an agent is in exactly one cell: the one it entered last *)
+Lemma place_In ag a c a' c' : In (a', c') (place ag a c) <-> (a' = a /\ c' = c) \/ (a' <> a /\ In (a', c') ag).
+Proof.
+  unfold place. rewrite in_app_iff, filter_In. simpl. rewrite negb_true_iff, Z.eqb_neq. split.
+  - intros [[H1 H2]|[H|[]]]; [right; auto|]. inversion H; subst. left. auto.
+  - intros [[-> ->]|[H1 H2]]; [right; left; reflexivity|left; auto].
+Qed.
+
+Definition single_valued (ag : placement) : Prop := forall a c c', In (a, c) ag -> In (a, c') ag -> c = c'.
+Lemma place_single_valued ag a c : single_valued ag -> single_valued (place ag a c).
+Proof.
+  intros H x c1 c2 H1 H2. apply place_In in H1. apply place_In in H2.
+  destruct H1 as [[E1 ->]|[N1 I1]], H2 as [[E2 ->]|[N2 I2]]; try congruence. eapply H; eassumption.
+Qed.
+
 
 (* the unchanged source recursion in the two corners of DESIGN section 5, rows 5 and 6 *)
 Lemma nbhd_src_refuted :
@@ -899,12 +951,22 @@ Definition hex_touch (p a b : Z) : bool := cube_dist 0 p a (p + b) =? 1.
 Definition hex_tables_ok : bool :=
   box_check (hex_offsets [0; 0]) (hex_touch 0) && box_check (hex_offsets [0; 1]) (hex_touch 1).
 
+(* the translated selector test depends on the parity only (whatever way the source writes it) *)
+Lemma hex_select_parity p : gen_hex_select p = gen_hex_select (p mod 2).
+Proof.
+  unfold gen_hex_select.
+  match goal with
+  | |- ?l = ?r => destruct l eqn:E1; destruct r eqn:E2; try reflexivity; exfalso;
+                  revert E1 E2; Z.div_mod_to_equations; lia
+  end.
+Qed.
+
 Lemma hex_offsets_parity i j : hex_offsets [i; j] = hex_offsets [0; j mod 2].
 Proof.
   unfold hex_offsets.
   change (nth (Z.to_nat gen_hex_parity_axis) [i; j] 0) with j.
   change (nth (Z.to_nat gen_hex_parity_axis) [0; j mod 2] 0) with (j mod 2).
-  rewrite Z.mod_mod by lia. reflexivity.
+  rewrite <- hex_select_parity. reflexivity.
 Qed.
 
 (* a hex cell (i, j), anywhere in Z^2, is connected under (di, dj) exactly to the cells whose
